@@ -8,7 +8,8 @@ Method: a few *probes* read the flag-like facts (which literal `where=None` beco
 reduce lambda, whether the re-qualification loop / alias stripping / str parsing are present, ...).  The probes
 only select which *template* of the function the source is compared with; the function is then required to be
 equal to that template exactly (after a canonicalisation that ignores docstrings, type annotations, logger
-calls and the names of local variables).  Any other shape raises Untranslatable -- never a guess.
+calls and the names of local variables).  The message argument of `raise <Type>(<message>)` is
+not compared either (type and raise point are).  Any other shape raises Untranslatable -- never a guess.
 """
 from __future__ import annotations
 
@@ -80,6 +81,17 @@ class _Canon(ast.NodeTransformer):
         if node.value is None:
             return ast.Pass()
         return self.visit(ast.Assign(targets=[node.target], value=node.value))
+
+    def visit_Raise(self, node):
+        """`raise <Type>(<message>)`: the exception type and the raise point stay pinned, the message expression is not
+        compared (its text cannot change which rows a statement touches; it is assumed to evaluate without raising)"""
+        if isinstance(node.exc, ast.Call) and dotted(node.exc.func) is not None and not node.exc.keywords:
+            node.exc = ast.Call(func=self.visit(node.exc.func), args=[], keywords=[])
+        elif node.exc is not None:
+            node.exc = self.visit(node.exc)
+        if node.cause is not None:
+            node.cause = self.visit(node.cause)
+        return node
 
     def visit_Assign(self, node):
         node.value = self.visit(node.value)       # value first (uses old bindings)
@@ -451,11 +463,19 @@ def lazy_facts(tree, src) -> dict:
 
 
 def count_exec_calls(funcs) -> int:
-    """calls, inside the builder functions, whose callee name is one of the session's execution entry points"""
+    """calls, inside the builder functions, whose callee name is one of the session's execution entry points.  Inside the
+    message of a `raise` (the only part of these functions the template match leaves free) only calls on `self...` count:
+    `key_column.sql()` there renders a Column for the error text, it does not reach the connection."""
     k = 0
     for fn in funcs:
+        in_raise = set()
+        for r in ast.walk(fn):
+            if isinstance(r, ast.Raise):
+                in_raise |= {id(n) for n in ast.walk(r)}
         for n in ast.walk(fn):
             if isinstance(n, ast.Call) and isinstance(n.func, ast.Attribute) and n.func.attr in EXEC_ATTRS:
+                if id(n) in in_raise and not (dotted(n.func) or "").startswith("self."):
+                    continue
                 k += 1
     return k
 
